@@ -30,6 +30,10 @@ def run(ck):
     p2 = os.path.join(ck.work, "fn-push-trace.ndjson")
     ck.harness(["fn-push-trace", "--seed", ck.seed, "--runs", 300 if q else 20000, "--out", p2], timeout=3000)
     validate(ck, p2, lambda ev: {"cmd": "fn-push-trace", "seed": ck.seed, "run": ev.get("run")})
+    # evaluation is a function of program, inputs and limits - NOT of how long it takes: runs of up to
+    # 2*10^7 steps with a closed-form step count must finish exactly when the limit allows (shared with C03)
+    import c03
+    ck.cov["conformance"]["counted_long_run_events"] = c03.counted_runs(ck, [12, 22] if q else [12, 20, 22, 23])
     e1, e2 = vlib.read_ndjson(p1), vlib.read_ndjson(p2)
     ops = sorted({e["op"] for e in e1 if e["ev"] == "obs"})
     keys = {e["key"] for e in e1 + e2 if e["ev"] == "obs"}
@@ -55,6 +59,10 @@ def run(ck):
 
 
 def replay(ck, obj):
+    if obj.get("regen", {}).get("counted"):
+        import c03
+        c03.counted_runs(ck, obj["regen"]["depths"], tag="one-counted")
+        return
     r = obj["regen"]
     p = os.path.join(ck.work, "one.ndjson")
     if r["cmd"] == "fn-trace":
